@@ -334,7 +334,21 @@ pub fn run_case(rec: &mut Recorder, rng: &mut Rng, which: &str, thorough: bool, 
 
         // phase 2: somebody authors or relays
         let a = rng.below(nrep as u64) as usize;
-        if rng.chance(3, 5) {
+        if rng.chance(1, 8) {
+            // remove the graph on replica a and re-join through a causal prefix of what another
+            // replica holds (cached per-graph state must not survive the removal)
+            let b = (a + 1 + rng.below(nrep as u64 - 1) as usize) % nrep;
+            if let Some(ob) = observe(&mut reps[b]) {
+                if reps[a].exists() && reps[a].client.remove_graph(g).is_ok() {
+                    rec.count("remove_graph+rejoin");
+                    let cut = rng.range(1, ob.committed.len() as u64) as usize;
+                    let prefix: Vec<KCmd> = ob.committed[..cut].to_vec();
+                    fp.push_str(&format!("\nrejoin r{a} <- r{b} {cut}"));
+                    let pc = rng.chance(1, 4);
+                    deliver(rec, rng, &mut reps[a], &prefix, pc);
+                }
+            }
+        } else if rng.chance(3, 5) {
             // action on replica a
             let Some(pre) = observe(&mut reps[a]) else { continue };
             let k = rng.range(1, 3) as usize;
